@@ -321,15 +321,6 @@ end Remoc.Table
 namespace Remoc.Table.Sys
 open Remoc.Wire Remoc.Table
 
-def side (s : St) : Who → Side
-  | .A => s.a
-  | .B => s.b
-
-/-- the wire towards side `x` -/
-def wireTo (s : St) : Who → List Msg
-  | .A => s.toA
-  | .B => s.toB
-
 /-- **Nothing is in flight for a port that is not in the table** (all interleavings): in every
 reachable state, for every port number `p` without an entry in the table of a side, the wire towards
 that side holds no `SendFinish p` / `ReceiveClose p` / `ReceiveFinish p` and no answer
